@@ -17,6 +17,12 @@ def main():
         r = sh(f"git -C /repo apply {d}/patch.diff")
         if r.returncode != 0:
             rows.append((i, meta["property"], "PATCH-DOES-NOT-APPLY", r.stdout.strip()[:80])); continue
+        import shutil
+        saved = {}
+        for p in props:
+            ev = os.path.join(ROOT, "evidence", f"{p}.json")
+            if os.path.exists(ev):
+                saved[ev] = open(ev).read()
         try:
             for p in props:
                 t = time.time()
@@ -26,6 +32,8 @@ def main():
                              (v[0][:150] if v else c.stdout.strip().splitlines()[-1][:150]) + f" ({time.time()-t:.0f}s)"))
         finally:
             sh("git -C /repo checkout -- . && git -C /repo clean -fdq rdflib")
+            for ev, txt in saved.items():   # evidence must describe the unchanged tree
+                open(ev, "w").write(txt)
     assert sh("git -C /repo status --porcelain").stdout.strip() == ""
     out = ["# Seeded changes vs checks (quick tier)", "", "| seeded id | check | result | first line |", "|---|---|---|---|"]
     for r in rows:
